@@ -470,8 +470,50 @@ class _Misc(ast.NodeTransformer):
             n.args = new
         return n
 
+    PURE_STR = ("strip", "lstrip", "rstrip", "lower", "upper", "casefold", "split", "splitlines")
+
+    def _dewalrus_comp(self, n):
+        """(s := x.strip()) inside a comprehension's element / condition, s read later in the same iteration: the pure call is
+        substituted for the name (evaluation order within one iteration: the binding textually precedes the reads)"""
+        binds = [w for part in [n.elt] + [c for g in n.generators for c in g.ifs] for w in ast.walk(part) if isinstance(w, ast.NamedExpr)] if not isinstance(n, ast.DictComp) else []
+        if not binds:
+            return n
+        table = {}
+        for w in binds:
+            v = w.value
+            if not (isinstance(w.target, ast.Name) and isinstance(v, ast.Call) and isinstance(v.func, ast.Attribute) and v.func.attr in self.PURE_STR and isinstance(v.func.value, ast.Name) and all(isinstance(a, ast.Constant) for a in v.args) and not v.keywords):
+                return n
+            if w.target.id in table:
+                return n
+            table[w.target.id] = v
+
+        class R(ast.NodeTransformer):
+            def visit_NamedExpr(self, x):
+                return ast.copy_location(_copy(table[x.target.id]), x)
+
+            def visit_Name(self, x):
+                if isinstance(x.ctx, ast.Load) and x.id in table:
+                    return ast.copy_location(_copy(table[x.id]), x)
+                return x
+
+        n.elt = R().visit(n.elt)
+        for g in n.generators:
+            g.ifs = [R().visit(c) for c in g.ifs]
+        ast.fix_missing_locations(n)
+        self.log.append(f"walrus in a comprehension substituted {self.modname}:{n.lineno}")
+        return n
+
+    def visit_GeneratorExp(self, n):
+        self.generic_visit(n)
+        return self._dewalrus_comp(n)
+
+    def visit_SetComp(self, n):
+        self.generic_visit(n)
+        return self._dewalrus_comp(n)
+
     def visit_ListComp(self, n):
         self.generic_visit(n)
+        n = self._dewalrus_comp(n)
         # [f(x) for x in ("a", "b")] -> [f("a"), f("b")]
         if len(n.generators) == 1:
             g = n.generators[0]
@@ -600,9 +642,16 @@ class _Misc(ast.NodeTransformer):
                     out.append(a)
                 self.log.append(f"update({{...}}) split {self.modname}:{st.lineno}")
                 continue
-            # if (m := f(x)) is None: ...   ->   m = f(x); if m is None: ...
-            if isinstance(st, (ast.If, ast.While)) is False and False:
-                pass
+            # d.update(a=x, b=y)  ->  d["a"] = x; d["b"] = y   (d a plain name: a dict, not a query builder)
+            if isinstance(st, ast.Expr) and isinstance(st.value, ast.Call) and isinstance(st.value.func, ast.Attribute) and st.value.func.attr == "update" and not st.value.args and st.value.keywords and all(k.arg is not None for k in st.value.keywords) and isinstance(st.value.func.value, ast.Name) and not st.value.func.value.id[:1].isupper():
+                recv = st.value.func.value
+                for k in st.value.keywords:
+                    a = ast.Assign(targets=[ast.Subscript(value=_copy(recv), slice=ast.Constant(value=k.arg), ctx=ast.Store())], value=k.value)
+                    ast.copy_location(a, st)
+                    ast.fix_missing_locations(a)
+                    out.append(a)
+                self.log.append(f"update(k=v, ...) split {self.modname}:{st.lineno}")
+                continue
             if isinstance(st, ast.If):
                 t = st.test
                 inner = t.operand if isinstance(t, ast.UnaryOp) and isinstance(t.op, ast.Not) else t
@@ -1036,11 +1085,535 @@ def deque_to_index(fn, log=None, where=""):
     return True
 
 
+def recover_moved_methods(modules, known_funcs, log):
+    """A known method Cls.m that is gone, while its module now has an unknown module-level function m with the method's
+    parameters minus `self` (the method never used self and was moved out of the class): the function is put back as
+    a method and the calls m(...) inside the class become self.m(...)."""
+    for mi in modules.values():
+        top = {st.name: st for st in mi.tree.body if isinstance(st, ast.FunctionDef)}
+        for cls in [st for st in mi.tree.body if isinstance(st, ast.ClassDef)]:
+            have = {c.name for c in cls.body if isinstance(c, (ast.FunctionDef, ast.AsyncFunctionDef))}
+            for q in known_funcs:
+                pre = f"{mi.name}.{cls.name}."
+                if not q.startswith(pre):
+                    continue
+                m = q[len(pre):]
+                if "." in m or m in have or m not in top or f"{mi.name}.{m}" in known_funcs:
+                    continue
+                fn = top[m]
+                if fn.decorator_list or any(isinstance(x, ast.Name) and x.id in ("self", "cls") for x in ast.walk(fn)):
+                    continue
+                meth = ast.parse(ast.unparse(fn)).body[0]
+                meth.args.args.insert(0, ast.arg(arg="self"))
+                ast.copy_location(meth, fn)
+                for x in ast.walk(meth):
+                    if not hasattr(x, "lineno"):
+                        ast.copy_location(x, fn)
+                ast.increment_lineno(meth, 0)
+                cls.body.append(meth)
+                for c in cls.body:
+                    if isinstance(c, (ast.FunctionDef, ast.AsyncFunctionDef)) and c is not meth and c.args.args and c.args.args[0].arg == "self" and not any(isinstance(d, ast.Name) and d.id == "staticmethod" for d in c.decorator_list):
+                        for x in ast.walk(c):
+                            if isinstance(x, ast.Call) and isinstance(x.func, ast.Name) and x.func.id == m:
+                                x.func = ast.copy_location(ast.Attribute(value=ast.Name(id="self", ctx=ast.Load()), attr=m, ctx=ast.Load()), x.func)
+                still = any(isinstance(x, ast.Name) and x.id == m for st in mi.tree.body if st is not fn for x in ast.walk(st))
+                if not still:
+                    mi.tree.body = [st for st in mi.tree.body if st is not fn]
+                ast.fix_missing_locations(mi.tree)
+                log.append(f"module-level function {mi.name}.{m} put back as method {cls.name}.{m}")
+
+
+def classmethod_constructors(modules, log):
+    """In a classmethod of a class without subclasses in the packages, `cls(...)` constructs that class; a classmethod that
+    uses `cls` for nothing else is the staticmethod it could have been (first parameter dropped)."""
+    subclassed = set()
+    fps = known_fingerprints()
+    for mi in modules.values():
+        for st in ast.walk(mi.tree):
+            if isinstance(st, ast.ClassDef):
+                for b in st.bases:
+                    subclassed.add(ast.unparse(b).split(".")[-1])
+    for mi in modules.values():
+        for cls in [st for st in ast.walk(mi.tree) if isinstance(st, ast.ClassDef) and st.name not in subclassed]:
+            for fn in [c for c in cls.body if isinstance(c, ast.FunctionDef)]:
+                if [ast.unparse(d) for d in fn.decorator_list] != ["classmethod"] or not fn.args.args:
+                    continue
+                # only where the function is known to have had one parameter fewer when the rules were written
+                if fps.get(f"{mi.name}.{cls.name}.{fn.name}#arity") != len(fn.args.args) - 1:
+                    continue
+                c0 = fn.args.args[0].arg
+                uses = [x for x in ast.walk(fn) if isinstance(x, ast.Name) and x.id == c0]
+                calls = [x for x in ast.walk(fn) if isinstance(x, ast.Call) and isinstance(x.func, ast.Name) and x.func.id == c0]
+                if not uses or len(uses) != len(calls):
+                    continue
+                for x in calls:
+                    x.func.id = cls.name
+                fn.args.args = fn.args.args[1:]
+                fn.decorator_list = [ast.copy_location(ast.Name(id="staticmethod", ctx=ast.Load()), fn.decorator_list[0])]
+                log.append(f"classmethod {mi.name}.{cls.name}.{fn.name} uses cls only as constructor: read as staticmethod building {cls.name}")
+
+
+def composed_decorators(modules, known_funcs, log):
+    """A decorator (factory) introduced by a refactoring that only stacks decorators --
+
+        def both(x=None):                    def both(f):
+            reg = outer(x)                       return outer(inner(f))
+            def h(f):
+                return reg(inner(f))
+            return h
+
+    -- is written out where it is used:  @both(a)  ->  @outer(a) / @inner ."""
+    for mi in modules.values():
+        table = {}
+        for st in mi.tree.body:
+            if not isinstance(st, ast.FunctionDef) or f"{mi.name}.{st.name}" in known_funcs or st.decorator_list:
+                continue
+            body = [x for x in st.body if not (isinstance(x, ast.Expr) and isinstance(x.value, ast.Constant))]
+            a = st.args
+            if a.vararg or a.kwarg or a.kwonlyargs:
+                continue
+            params = [x.arg for x in a.args]
+
+            def chain(e, fparam, binds):
+                """outer(inner(f)) -> [outer, inner] (expressions), or None"""
+                out = []
+                while True:
+                    if isinstance(e, ast.Name) and e.id == fparam:
+                        return out
+                    if isinstance(e, ast.Call) and len(e.args) == 1 and not e.keywords:
+                        fn = e.func
+                        if isinstance(fn, ast.Name) and fn.id in binds:
+                            fn = binds[fn.id]
+                        out.append(fn)
+                        e = e.args[0]
+                        continue
+                    return None
+
+            if len(params) == 1 and len(body) == 1 and isinstance(body[0], ast.Return) and body[0].value is not None:
+                ch = chain(body[0].value, params[0], {})
+                if ch and len(ch) >= 2:
+                    table[st.name] = ("plain", params, [], ch)
+                continue
+            binds = {}
+            ok = True
+            inner = None
+            for x in body[:-1]:
+                if isinstance(x, ast.Assign) and len(x.targets) == 1 and isinstance(x.targets[0], ast.Name) and isinstance(x.value, ast.Call) and inner is None:
+                    binds[x.targets[0].id] = x.value
+                elif isinstance(x, ast.FunctionDef) and inner is None:
+                    inner = x
+                else:
+                    ok = False
+            if not ok or inner is None or not body or not (isinstance(body[-1], ast.Return) and isinstance(body[-1].value, ast.Name) and body[-1].value.id == inner.name):
+                continue
+            ib = [x for x in inner.body if not (isinstance(x, ast.Expr) and isinstance(x.value, ast.Constant))]
+            if len(inner.args.args) != 1 or inner.decorator_list or len(ib) != 1 or not isinstance(ib[0], ast.Return) or ib[0].value is None:
+                continue
+            ch = chain(ib[0].value, inner.args.args[0].arg, binds)
+            if ch:
+                table[st.name] = ("factory", params, a.defaults, ch)
+        if not table:
+            continue
+        for fn in [x for x in ast.walk(mi.tree) if isinstance(x, (ast.FunctionDef, ast.AsyncFunctionDef, ast.ClassDef))]:
+            newd = []
+            for d in fn.decorator_list:
+                name = d.id if isinstance(d, ast.Name) else d.func.id if isinstance(d, ast.Call) and isinstance(d.func, ast.Name) else None
+                ent = table.get(name)
+                if ent is None or (ent[0] == "plain") != isinstance(d, ast.Name):
+                    newd.append(d)
+                    continue
+                kind, params, defaults, ch = ent
+                mapping = {}
+                if kind == "factory":
+                    if d.keywords and any(k.arg is None for k in d.keywords) or any(isinstance(x, ast.Starred) for x in d.args) or len(d.args) > len(params):
+                        newd.append(d)
+                        continue
+                    for pn, dv in zip(reversed(params), reversed(defaults)):
+                        mapping[pn] = dv
+                    for pn, av in zip(params, d.args):
+                        mapping[pn] = av
+                    for k in d.keywords:
+                        mapping[k.arg] = k.value
+                    if any(pn not in mapping for pn in params):
+                        newd.append(d)
+                        continue
+                for c in ch:
+                    e = ast.parse(ast.unparse(c), mode="eval").body
+                    if mapping:
+                        e = _NameSubst(mapping).visit(e)
+                    # outer(None) written with the default left out reads outer()
+                    ast.copy_location(e, d)
+                    for y in ast.walk(e):
+                        ast.copy_location(y, d)
+                    newd.append(e)
+                log.append(f"composed decorator @{name} written out on {mi.name}.{fn.name}")
+            fn.decorator_list = newd
+        used_names = {x.id for x in ast.walk(mi.tree) if isinstance(x, ast.Name)}
+        mi.tree.body = [st for st in mi.tree.body if not (isinstance(st, ast.FunctionDef) and st.name in table and st.name not in used_names)]
+
+
+class _NameSubst(ast.NodeTransformer):
+    def __init__(self, mapping):
+        self.mapping = mapping
+
+    def visit_Name(self, n):
+        if isinstance(n.ctx, ast.Load) and n.id in self.mapping:
+            return ast.copy_location(ast.parse(ast.unparse(self.mapping[n.id]), mode="eval").body, n)
+        return n
+
+
+def drop_local_annotations(modules, log):
+    """inside functions, `x: T = v` is `x = v` and a bare `x: T` declares nothing (class-level annotated attributes are kept:
+    whether a container is declared on the class or bound per instance is what INSTANCE-STATE looks at)"""
+    n = 0
+    for mi in modules.values():
+        for fn in [x for x in ast.walk(mi.tree) if isinstance(x, (ast.FunctionDef, ast.AsyncFunctionDef))]:
+            for holder in ast.walk(fn):
+                for field in ("body", "orelse", "finalbody"):
+                    blk = getattr(holder, field, None)
+                    if not (isinstance(blk, list) and blk and isinstance(blk[0], ast.stmt)):
+                        continue
+                    new = []
+                    for st in blk:
+                        if isinstance(st, ast.AnnAssign) and isinstance(st.target, (ast.Name, ast.Attribute)):
+                            n += 1
+                            if st.value is None:
+                                continue
+                            a = ast.Assign(targets=[st.target], value=st.value)
+                            ast.copy_location(a, st)
+                            new.append(a)
+                        else:
+                            new.append(st)
+                    if not new:
+                        new = [ast.copy_location(ast.Pass(), blk[0])]
+                    setattr(holder, field, new)
+        ast.fix_missing_locations(mi.tree)
+    if n:
+        log.append(f"{n} local annotated assignments read as plain assignments")
+
+
+def expand_descriptors(modules, log):
+    """A data-descriptor class of the packages (__set_name__ remembering the attribute name, __get__, __set__) bound as a class
+    attribute `x = Desc(args)` is the property it implements: getter / setter are written out with the descriptor's state
+    (constructor arguments, the bound name) substituted, `obj` renamed to `self`."""
+    for mi in modules.values():
+        descs = {}
+        for cls in [st for st in mi.tree.body if isinstance(st, ast.ClassDef)]:
+            meth = {c.name: c for c in cls.body if isinstance(c, ast.FunctionDef)}
+            if not {"__get__", "__set__", "__set_name__"} <= set(meth) or set(meth) - {"__get__", "__set__", "__set_name__", "__init__"}:
+                continue
+            state = {}  # attribute of the descriptor -> ("param", name) | ("name",)
+            ok = True
+            if "__init__" in meth:
+                ini = meth["__init__"]
+                for st in [x for x in ini.body if not (isinstance(x, ast.Expr) and isinstance(x.value, ast.Constant))]:
+                    if isinstance(st, ast.Assign) and len(st.targets) == 1 and isinstance(st.targets[0], ast.Attribute) and ast.unparse(st.targets[0].value) == "self" and isinstance(st.value, ast.Name) and st.value.id in [a.arg for a in ini.args.args[1:]]:
+                        state[st.targets[0].attr] = ("param", st.value.id)
+                    else:
+                        ok = False
+            sn = meth["__set_name__"]
+            snb = [x for x in sn.body if not (isinstance(x, ast.Expr) and isinstance(x.value, ast.Constant))]
+            if len(sn.args.args) != 3 or len(snb) != 1 or not (isinstance(snb[0], ast.Assign) and isinstance(snb[0].targets[0], ast.Attribute) and ast.unparse(snb[0].targets[0].value) == "self" and isinstance(snb[0].value, ast.Name) and snb[0].value.id == sn.args.args[2].arg):
+                continue
+            state[snb[0].targets[0].attr] = ("name",)
+            g, t = meth["__get__"], meth["__set__"]
+            gb = [x for x in g.body if not (isinstance(x, ast.Expr) and isinstance(x.value, ast.Constant))]
+            if len(g.args.args) < 2 or len(t.args.args) != 3:
+                continue
+            obj = g.args.args[1].arg
+            if gb and isinstance(gb[0], ast.If) and ast.unparse(gb[0].test) == f"{obj} is None" and not gb[0].orelse:
+                gb = gb[1:]
+            if not ok or len(gb) != 1 or not isinstance(gb[0], ast.Return) or gb[0].value is None:
+                continue
+            descs[cls.name] = (meth.get("__init__"), state, obj, gb[0].value, t)
+        if not descs:
+            continue
+        used = set()
+        for cls in [st for st in ast.walk(mi.tree) if isinstance(st, ast.ClassDef)]:
+            newbody = []
+            for st in cls.body:
+                v = st.value if isinstance(st, ast.Assign) and len(st.targets) == 1 and isinstance(st.targets[0], ast.Name) else None
+                if not (isinstance(v, ast.Call) and isinstance(v.func, ast.Name) and v.func.id in descs):
+                    newbody.append(st)
+                    continue
+                ini, state, obj, getexpr, setter = descs[v.func.id]
+                attr = st.targets[0].id
+                args = {}
+                if ini is not None:
+                    ps = [a.arg for a in ini.args.args[1:]]
+                    for pn, av in zip(ps, v.args):
+                        args[pn] = av
+                    for k in v.keywords:
+                        if k.arg:
+                            args[k.arg] = k.value
+                    for pn, dv in zip(reversed(ps), reversed(ini.args.defaults)):
+                        args.setdefault(pn, dv)
+
+                def subst(node, objname, valname=None):
+                    class R(ast.NodeTransformer):
+                        def visit_Attribute(self, n):
+                            self.generic_visit(n)
+                            if isinstance(n.value, ast.Name) and n.value.id == "self" and n.attr in state:
+                                k = state[n.attr]
+                                if k[0] == "name":
+                                    return ast.copy_location(ast.Constant(value=attr), n)
+                                if k[1] in args:
+                                    return ast.copy_location(ast.parse(ast.unparse(args[k[1]]), mode="eval").body, n)
+                            return n
+
+                        def visit_Name(self, n):
+                            if n.id == objname:
+                                return ast.copy_location(ast.Name(id="self", ctx=n.ctx), n)
+                            return n
+
+                        def visit_Call(self, n):
+                            self.generic_visit(n)
+                            # (lambda: E)()  ->  E ;  dict() -> {} ; list() -> []
+                            if isinstance(n.func, ast.Lambda) and not n.args and not n.keywords and not n.func.args.args:
+                                return n.func.body
+                            if isinstance(n.func, ast.Name) and n.func.id in ("dict", "list") and not n.args and not n.keywords:
+                                return ast.copy_location(ast.Dict(keys=[], values=[]) if n.func.id == "dict" else ast.List(elts=[], ctx=ast.Load()), n)
+                            return n
+
+                    # the descriptor's own `self` must be replaced before obj is renamed to self: two passes
+                    tmp = R()
+                    objn = objname
+                    node = ast.parse(ast.unparse(node)).body[0] if isinstance(node, ast.stmt) else ast.parse(ast.unparse(node), mode="eval").body
+                    class A(ast.NodeTransformer):
+                        def visit_Attribute(self, n):
+                            return tmp.visit_Attribute(n) if isinstance(n.value, ast.Name) and n.value.id == "self" else self.generic_visit(n)
+                    node = A().visit(node)
+                    class B(ast.NodeTransformer):
+                        def visit_Name(self, n):
+                            return tmp.visit_Name(n)
+                        def visit_Call(self, n):
+                            return tmp.visit_Call(n)
+                    return B().visit(node)
+
+                src = f"@property\ndef {attr}(self):\n    return {ast.unparse(subst(getexpr, obj))}\n"
+                sobj, sval = setter.args.args[1].arg, setter.args.args[2].arg
+                sbody = "\n".join("    " + ln for x in setter.body if not (isinstance(x, ast.Expr) and isinstance(x.value, ast.Constant)) for ln in ast.unparse(subst(x, sobj)).splitlines())
+                src += f"@{attr}.setter\ndef {attr}(self, {sval}):\n{sbody}\n"
+                for nd in ast.parse(src).body:
+                    for y in ast.walk(nd):
+                        ast.copy_location(y, st)
+                    newbody.append(nd)
+                used.add(v.func.id)
+                log.append(f"descriptor {v.func.id} bound as {mi.name}.{cls.name}.{attr} written out as a property")
+            cls.body = newbody
+        ast.fix_missing_locations(mi.tree)
+
+
+def prefix_decorators(modules, known_funcs, log):
+    """A decorator introduced by a refactoring whose wrapper only runs some statements and then calls the wrapped function
+    with the same arguments --
+
+        def deco(method):
+            @functools.wraps(method)
+            def wrapper(self, *args, **kwargs):
+                <prefix statements>
+                return method(self, *args, **kwargs)
+            return wrapper
+
+    -- is applied by hand: the prefix goes to the top of every function decorated with it (first parameter renamed),
+    the decorator is dropped.  Decorators that existed when the rules were written are left alone."""
+    for mi in modules.values():
+        decos = {}
+        for st in mi.tree.body:
+            if not isinstance(st, ast.FunctionDef) or f"{mi.name}.{st.name}" in known_funcs:
+                continue
+            a = st.args
+            if len(a.args) != 1 or a.vararg or a.kwarg or a.kwonlyargs:
+                continue
+            body = [x for x in st.body if not (isinstance(x, ast.Expr) and isinstance(x.value, ast.Constant))]
+            if len(body) != 2 or not isinstance(body[0], ast.FunctionDef) or not (isinstance(body[1], ast.Return) and isinstance(body[1].value, ast.Name) and body[1].value.id == body[0].name):
+                continue
+            w = body[0]
+            wa = w.args
+            if not (wa.vararg and wa.kwarg and not wa.kwonlyargs and not wa.defaults and len(wa.args) <= 1):
+                continue
+            if any(ast.unparse(d) not in (f"functools.wraps({a.args[0].arg})", f"wraps({a.args[0].arg})") for d in w.decorator_list):
+                continue
+            wb = [x for x in w.body if not (isinstance(x, ast.Expr) and isinstance(x.value, ast.Constant))]
+            first = wa.args[0].arg if wa.args else None
+            want = f"return {a.args[0].arg}({first + ', ' if first else ''}*{wa.vararg.arg}, **{wa.kwarg.arg})"
+            if not wb or ast.unparse(wb[-1]) != want:
+                continue
+            prefix = wb[:-1]
+            if any(isinstance(x, (ast.Return, ast.Yield, ast.YieldFrom, ast.FunctionDef, ast.Lambda)) for p_ in prefix for x in ast.walk(p_)):
+                continue
+            used = {x.id for p_ in prefix for x in ast.walk(p_) if isinstance(x, ast.Name)}
+            if used & {wa.vararg.arg, wa.kwarg.arg, a.args[0].arg}:
+                continue
+            decos[st.name] = (first, prefix)
+        if not decos:
+            continue
+        for fn in [x for x in ast.walk(mi.tree) if isinstance(x, (ast.FunctionDef, ast.AsyncFunctionDef))]:
+            keep = []
+            for d in fn.decorator_list:
+                if isinstance(d, ast.Name) and d.id in decos:
+                    first, prefix = decos[d.id]
+                    if first is not None and not fn.args.args:
+                        keep.append(d)
+                        continue
+                    new = [ast.parse(ast.unparse(x)).body[0] for x in prefix]
+                    if first is not None and fn.args.args[0].arg != first:
+                        for x in new:
+                            for y in ast.walk(x):
+                                if isinstance(y, ast.Name) and y.id == first:
+                                    y.id = fn.args.args[0].arg
+                    for x in new:
+                        ast.copy_location(x, fn.body[0])
+                        for y in ast.walk(x):
+                            ast.copy_location(y, fn.body[0])
+                    at = 1 if fn.body and isinstance(fn.body[0], ast.Expr) and isinstance(fn.body[0].value, ast.Constant) and isinstance(fn.body[0].value.value, str) else 0
+                    fn.body[at:at] = new
+                    log.append(f"prefix decorator @{d.id} applied to {mi.name}.{fn.name}")
+                else:
+                    keep.append(d)
+            fn.decorator_list = keep
+        used_names = {x.id for x in ast.walk(mi.tree) if isinstance(x, ast.Name)}
+        mi.tree.body = [st for st in mi.tree.body if not (isinstance(st, ast.FunctionDef) and st.name in decos and st.name not in used_names)]
+
+
+def intenum_members(modules, log):
+    """`Cls.MEMBER` of an IntEnum class whose members are integer literals reads as that integer (row[_Col.ID] is row[0])"""
+    table = {}
+    for mi in modules.values():
+        for st in mi.tree.body:
+            if isinstance(st, ast.ClassDef) and any(ast.unparse(b) in ("IntEnum", "enum.IntEnum") for b in st.bases):
+                mem = {}
+                for c in st.body:
+                    if isinstance(c, ast.Assign) and len(c.targets) == 1 and isinstance(c.targets[0], ast.Name) and isinstance(c.value, ast.Constant) and isinstance(c.value.value, int) and not isinstance(c.value.value, bool):
+                        mem[c.targets[0].id] = c.value.value
+                if mem:
+                    table[(mi.name, st.name)] = mem
+    if not table:
+        return
+    for mi in modules.values():
+        visible = {cn: mem for (mn, cn), mem in table.items() if mn == mi.name}
+        for st in ast.walk(mi.tree):
+            if isinstance(st, ast.ImportFrom):
+                for a in st.names:
+                    for (mn, cn), mem in table.items():
+                        if a.name == cn and (st.module or "").split(".")[-1] == mn.split(".")[-1]:
+                            visible[a.asname or a.name] = mem
+        if not visible:
+            continue
+
+        class R(ast.NodeTransformer):
+            def visit_Attribute(self, n):
+                self.generic_visit(n)
+                if isinstance(n.ctx, ast.Load) and isinstance(n.value, ast.Name) and n.value.id in visible and n.attr in visible[n.value.id]:
+                    log.append(f"IntEnum member {n.value.id}.{n.attr} -> {visible[n.value.id][n.attr]} in {mi.name}:{n.lineno}")
+                    return ast.copy_location(ast.Constant(value=visible[n.value.id][n.attr]), n)
+                if isinstance(n.ctx, ast.Load) and n.attr == "value" and isinstance(n.value, ast.Constant) and isinstance(n.value.value, int):
+                    return n.value  # Cls.MEMBER.value
+                return n
+
+        mi.tree = R().visit(mi.tree)
+        ast.fix_missing_locations(mi.tree)
+
+
+def peewee_shortcuts(modules, log):
+    """peewee's primary-key shortcuts are written out as the queries they are defined as (peewee/Model):
+         M.get_by_id(k)        ->  M.get(M.<pk> == k)
+         M.delete_by_id(k)     ->  M.delete().where(M.<pk> == k).execute()
+         [return | v =] M.get_or_none(c1, c2)  ->  try: ... M.select().where(c1).where(c2).get()  except DoesNotExist: ... None"""
+    pks = {}
+    for mi in modules.values():
+        for st in mi.tree.body:
+            if isinstance(st, ast.ClassDef):
+                for c in st.body:
+                    if isinstance(c, ast.Assign) and len(c.targets) == 1 and isinstance(c.targets[0], ast.Name) and isinstance(c.value, ast.Call):
+                        fn = ast.unparse(c.value.func)
+                        if fn.split(".")[-1] == "AutoField" or any(k.arg == "primary_key" and isinstance(k.value, ast.Constant) and k.value.value is True for k in c.value.keywords):
+                            pks[st.name] = c.targets[0].id
+    if not pks:
+        return
+
+    def pk_eq(model, arg):
+        return ast.Compare(left=ast.Attribute(value=ast.Name(id=model, ctx=ast.Load()), attr=pks[model], ctx=ast.Load()), ops=[ast.Eq()], comparators=[arg])
+
+    for mi in modules.values():
+        has_peewee = any(isinstance(st, ast.Import) and any(a.name == "peewee" and a.asname is None for a in st.names) for st in mi.tree.body)
+
+        class R(ast.NodeTransformer):
+            def visit_Call(self, n):
+                self.generic_visit(n)
+                f = n.func
+                if isinstance(f, ast.Attribute) and isinstance(f.value, ast.Name) and f.value.id in pks and len(n.args) == 1 and not n.keywords:
+                    m = f.value.id
+                    if f.attr == "get_by_id":
+                        log.append(f"{m}.get_by_id written out in {mi.name}:{n.lineno}")
+                        return ast.copy_location(ast.Call(func=ast.Attribute(value=ast.Name(id=m, ctx=ast.Load()), attr="get", ctx=ast.Load()), args=[pk_eq(m, n.args[0])], keywords=[]), n)
+                    if f.attr == "delete_by_id":
+                        log.append(f"{m}.delete_by_id written out in {mi.name}:{n.lineno}")
+                        d = ast.Call(func=ast.Attribute(value=ast.Name(id=m, ctx=ast.Load()), attr="delete", ctx=ast.Load()), args=[], keywords=[])
+                        w = ast.Call(func=ast.Attribute(value=d, attr="where", ctx=ast.Load()), args=[pk_eq(m, n.args[0])], keywords=[])
+                        return ast.copy_location(ast.Call(func=ast.Attribute(value=w, attr="execute", ctx=ast.Load()), args=[], keywords=[]), n)
+                return n
+
+        mi.tree = R().visit(mi.tree)
+
+        def gon(e):
+            return isinstance(e, ast.Call) and isinstance(e.func, ast.Attribute) and e.func.attr == "get_or_none" and isinstance(e.func.value, ast.Name) and e.func.value.id in pks and e.args and not e.keywords
+
+        def chain(e):
+            m = e.func.value.id
+            q = ast.Call(func=ast.Attribute(value=ast.Name(id=m, ctx=ast.Load()), attr="select", ctx=ast.Load()), args=[], keywords=[])
+            for c in e.args:
+                q = ast.Call(func=ast.Attribute(value=q, attr="where", ctx=ast.Load()), args=[c], keywords=[])
+            return ast.Call(func=ast.Attribute(value=q, attr="get", ctx=ast.Load()), args=[], keywords=[])
+
+        def exc(e):
+            return ast.parse("peewee.DoesNotExist" if has_peewee else f"{e.func.value.id}.DoesNotExist", mode="eval").body
+
+        def rec(stmts):
+            out = []
+            for st in stmts:
+                for field in ("body", "orelse", "finalbody"):
+                    blk = getattr(st, field, None)
+                    if isinstance(blk, list) and blk and isinstance(blk[0], ast.stmt):
+                        setattr(st, field, rec(blk))
+                if isinstance(st, ast.Try):
+                    for h in st.handlers:
+                        h.body = rec(h.body)
+                v = getattr(st, "value", None)
+                if isinstance(st, ast.Return) and gon(v):
+                    new = ast.Try(body=[ast.Return(value=chain(v))], handlers=[ast.ExceptHandler(type=exc(v), name=None, body=[ast.Return(value=ast.Constant(value=None))])], orelse=[], finalbody=[])
+                elif isinstance(st, ast.Assign) and len(st.targets) == 1 and isinstance(st.targets[0], ast.Name) and gon(v):
+                    t = st.targets[0].id
+                    new = ast.Try(body=[ast.Assign(targets=[ast.Name(id=t, ctx=ast.Store())], value=chain(v))], handlers=[ast.ExceptHandler(type=exc(v), name=None, body=[ast.Assign(targets=[ast.Name(id=t, ctx=ast.Store())], value=ast.Constant(value=None))])], orelse=[], finalbody=[])
+                else:
+                    out.append(st)
+                    continue
+                ast.copy_location(new, st)
+                for x in ast.walk(new):
+                    if not hasattr(x, "lineno") or x.lineno is None:
+                        ast.copy_location(x, st)
+                log.append(f"get_or_none written out in {mi.name}:{st.lineno}")
+                out.append(new)
+            return out
+
+        for fn in [x for x in ast.walk(mi.tree) if isinstance(x, (ast.FunctionDef, ast.AsyncFunctionDef))]:
+            fn.body = rec(fn.body)
+        ast.fix_missing_locations(mi.tree)
+
+
 def run(modules, known_funcs):
     """normalise all module trees in place; returns the list of rewrites performed"""
     log = []
     recover_renames(modules, known_funcs, log)
+    drop_local_annotations(modules, log)
+    expand_descriptors(modules, log)
+    recover_moved_methods(modules, known_funcs, log)
+    classmethod_constructors(modules, log)
+    composed_decorators(modules, known_funcs, log)
+    prefix_decorators(modules, known_funcs, log)
     inline_constants(modules, log)
+    intenum_members(modules, log)
+    peewee_shortcuts(modules, log)
     namedtuple_fields(modules, log)
     for mi in modules.values():
         for _pass in range(2):  # statements produced by one rewrite are themselves rewritten in the second pass
